@@ -714,10 +714,18 @@ impl Core {
             spins += 1;
             if spins % 64 == 0 {
                 std::thread::yield_now();
+                // A change that needs no write (nothing to set) goes straight through without
+                // asking anybody to stop; the writer is then already at its next point.
+                let st = self.lock();
+                if st.threads[&id].status != Status::Running {
+                    drop(st);
+                    drop(probe);
+                    return Ok(());
+                }
             }
             if t0.elapsed() > self.watchdog {
                 drop(probe);
-                return Err("writer released from apply:begin never requested cancellation".into());
+                return Err("writer released from apply:begin neither requested cancellation nor came back".into());
             }
         }
         drop(probe);
